@@ -1,5 +1,5 @@
 ---- MODULE TFControl_MC ----
 EXTENDS TFControl
 MC_Cfgs == {c \in [so : {"shampoo", "sketchy"}, SF : 1..4, PF : 1..4, Start : 0..5,
-                   graft : BOOLEAN, skipped : BOOLEAN] : CfgOK(c)}
+                   graft : BOOLEAN, skipped : BOOLEAN, ekfac : BOOLEAN] : CfgOK(c)}
 ====
